@@ -255,6 +255,19 @@ impl VState {
 	}
 }
 
+/// Native replay of a dialect counterexample (`cargo kani playback` builds with cfg(test)): the REAL raw
+/// operations consult the same fault plan and panic for real, so the repository's own functions run under
+/// real unwinding.  Under verification this is a no-op (Kani cannot unwind; the dialect twins are used).
+#[cfg(test)]
+fn native_fault(kind: u8, addr: usize) {
+	if super::dialect_rt::fault(kind, addr) {
+		panic!("injected raw lock fault");
+	}
+}
+#[cfg(not(test))]
+#[inline(always)]
+fn native_fault(_kind: u8, _addr: usize) {}
+
 pub struct VMutex(pub VState);
 pub struct VRwLock(pub VState);
 
@@ -268,12 +281,15 @@ unsafe impl lock_api::RawMutex for VMutex {
 	type GuardMarker = lock_api::GuardNoSend;
 
 	fn lock(&self) {
+		native_fault(OP_LOCK_X, self as *const Self as usize);
 		self.0.lock_x()
 	}
 	fn try_lock(&self) -> bool {
+		native_fault(OP_TRY_X, self as *const Self as usize);
 		self.0.try_x()
 	}
 	unsafe fn unlock(&self) {
+		native_fault(OP_UNLOCK_X, self as *const Self as usize);
 		self.0.unlock_x()
 	}
 }
@@ -284,21 +300,27 @@ unsafe impl lock_api::RawRwLock for VRwLock {
 	type GuardMarker = lock_api::GuardNoSend;
 
 	fn lock_shared(&self) {
+		native_fault(OP_LOCK_S, self as *const Self as usize);
 		self.0.lock_s()
 	}
 	fn try_lock_shared(&self) -> bool {
+		native_fault(OP_TRY_S, self as *const Self as usize);
 		self.0.try_s()
 	}
 	unsafe fn unlock_shared(&self) {
+		native_fault(OP_UNLOCK_S, self as *const Self as usize);
 		self.0.unlock_s()
 	}
 	fn lock_exclusive(&self) {
+		native_fault(OP_LOCK_X, self as *const Self as usize);
 		self.0.lock_x()
 	}
 	fn try_lock_exclusive(&self) -> bool {
+		native_fault(OP_TRY_X, self as *const Self as usize);
 		self.0.try_x()
 	}
 	unsafe fn unlock_exclusive(&self) {
+		native_fault(OP_UNLOCK_X, self as *const Self as usize);
 		self.0.unlock_x()
 	}
 }
